@@ -25,15 +25,15 @@ type Step struct {
 }
 
 type Surgery struct {
-	Kind string `json:"kind"`        // tindex-torn | drop-window | cindex-drop | cindex-stale | cindex-torn
+	Kind string `json:"kind"`        // tindex-torn | drop-window | progress-torn | cindex-drop | cindex-stale | cindex-torn
 	K    int    `json:"k,omitempty"` // torn: keep K per mille of the file (always a proper prefix)
 	Part int    `json:"part,omitempty"`
 }
 
 type Session struct {
 	Steps   []Step    `json:"steps"`
-	End     string    `json:"end"`             // stop | kill | crash-stop (the process dies inside the first saver of the shutdown sequence)
-	EndK    int       `json:"end_k,omitempty"` // crash-stop: the file size limit is EndK per mille of pipes.dat (what savePipes is about to write)
+	End     string    `json:"end"`             // stop | kill | crash-stop (the process dies inside the first saver of the shutdown sequence) | crash-create (it dies inside the tag-index save of a partition creation)
+	EndK    int       `json:"end_k,omitempty"` // crash-stop: the file size limit is EndK per mille of pipes.dat (what savePipes is about to write); crash-create: EndK bytes above the length of tindex.dat
 	Surgery []Surgery `json:"surgery,omitempty"`
 	// Blind: nothing is asked of the server between the start of this session and its first step (no read, no RANGE
 	// probe: a query lets the time index learn the chunks its snapshot does not know; here a write finds them unknown)
@@ -182,6 +182,10 @@ func applySurgery(dir string, s Surgery, saved map[string][]byte, tr *trace) err
 			}
 		}
 		return nil
+	case "progress-torn":
+		// a crash inside the in-place rewrite of the progress file of the forwarding pipe (pipes/pipe<name>.dat is written
+		// by ioutil.WriteFile after every batch): any proper prefix of it, the empty file included
+		return tear(filepath.Join(dir, "pipes", "pipe"+fwdPipe+".dat"))
 	case "cindex-drop":
 		err := os.Remove(cdat)
 		if os.IsNotExist(err) {
@@ -220,6 +224,7 @@ func runScenario(sc *Scenario) (*trace, error) {
 	tr := &trace{}
 	saved := map[string][]byte{}
 	gaveUp, rangeGaveUp := false, false
+	skipped, pendingAtTear, lastRound, positionLost := 0, 0, 0, false // the forwarding pipe: see the "round" step
 	start := func(blind bool) (*child, error) {
 		c, started, msg, err := startChild(dir, 600000)
 		if err != nil {
@@ -265,7 +270,15 @@ func runScenario(sc *Scenario) (*trace, error) {
 			case "fwdpipe":
 				cmd = Cmd{Op: "pipe", Name: fwdPipe, Cond: "app=c07 AND p=0"}
 			case "round":
-				cmd = Cmd{Op: "round", Name: fwdPipe, Tags: sc.tags(0), Ts: st.Ts, Dest: sc.tags(sc.NParts - 1)}
+				cmd = Cmd{Op: "round", Name: fwdPipe, Tags: sc.tags(0), Ts: st.Ts, Dest: sc.tags(sc.NParts - 1), Skip: skipped}
+				if positionLost {
+					// the pipe has no position: it takes the start of this write, i.e. it passes over what the last round
+					// of the session before the crash left unforwarded
+					skipped += pendingAtTear
+					cmd.Skip = skipped
+					positionLost = false
+				}
+				lastRound = len(st.Ts)
 				if gaveUp {
 					cmd.N = 2000 // a pipe that did not catch up once is not waited for at length again
 				}
@@ -353,12 +366,29 @@ func runScenario(sc *Scenario) (*trace, error) {
 				return nil, err
 			}
 			tr.inject = append(tr.inject, "stop:"+how)
+		case "crash-create":
+			// the tag index is about to grow by the record of a partition nobody has seen (its tags are not among the
+			// scenario's): the limit lies EndK bytes above the present length, inside the new record
+			size := 0
+			if data, err := ioutil.ReadFile(filepath.Join(dir, "tindex", "tindex.dat")); err == nil {
+				size = len(data)
+			}
+			how, err := c.crashCreate(fmt.Sprintf("app=c07,ghost=%d", si), int64(size+ss.EndK))
+			if err != nil {
+				return nil, err
+			}
+			tr.inject = append(tr.inject, "create:"+how)
 		default:
 			if err := c.stop(); err != nil {
 				return nil, err
 			}
 		}
 		for _, sg := range ss.Surgery {
+			if sg.Kind == "progress-torn" {
+				if _, err := os.Stat(filepath.Join(dir, "pipes", "pipe"+fwdPipe+".dat")); err == nil {
+					positionLost, pendingAtTear = true, lastRound
+				}
+			}
 			if err := applySurgery(dir, sg, saved, tr); err != nil {
 				return nil, fmt.Errorf("surgery %s: %v", sg.Kind, err)
 			}
